@@ -422,3 +422,34 @@ void harness_reply_payload_types(void)
 	CHECK(timers_alive() == 0, "C07.request_timer_destroyed_after_reply");
 	WITNESS_END();
 }
+
+/* ================================================================== a request without an id is routed like any other; the owner's answer is consumed,
+ * nobody is answered, and the routing record and its timer are released */
+void harness_reply_to_request_without_id(void)
+{
+	setup();
+	int v = (int)nd_range(0, 999), w = (int)nd_range(0, 999);
+	long blocks0 = verif_live_blocks;
+	int k = do_set(&A, 0, v);                     /* no id */
+	CHECK(k >= 0 && LOG[k].has_value && LOG[k].value_int == v && timers_alive() == 1, "C03.request_without_id_is_routed_like_any_other");
+	__CPROVER_assume(k >= 0);
+	int before = nlog;
+#ifdef REPLY_ERROR
+	int r = reply(&O, LOG[k].id_str, 1, w);
+#else
+	int r = reply(&O, LOG[k].id_str, 0, w);
+#endif
+	CHECK(r >= 0, "C03.reply_keeps_owner_connection");
+	CHECK(nlog == before, "C03.caller_without_id_receives_nothing");
+	CHECK(timers_alive() == 0, "C07.request_timer_destroyed_after_reply");
+	CHECK(verif_live_blocks == blocks0, "C07.routing_record_released_after_reply");
+	/* the same when nobody answers: the deadline passes silently */
+	int k2 = do_set(&A, 0, v);
+	__CPROVER_assume(k2 >= 0 && timers_alive() == 1);
+	before = nlog;
+	for (int i = 0; i < ntm; i++) if (!TM[i].destroyed && TM[i].armed) tm_fire(&TM[i]);
+	CHECK(nlog == before, "C03.caller_without_id_receives_nothing");
+	CHECK(timers_alive() == 0, "C07.request_timer_destroyed_after_timeout");
+	CHECK(verif_live_blocks == blocks0, "C07.routing_record_released_after_timeout");
+	WITNESS_END();
+}
